@@ -231,7 +231,9 @@ def rule_body_text(ctx, file, s):
             ctx.log(rule, file, 0, m.group(0), after)
             return after
         return re.sub(pat, f, s, flags=flags)
-    s = sub("R-assert", r"assert_eq!\(([^,;]+), ([^;]+?)\);", r"runtime_assert(\1 == \2);", s)
+    s = sub("R-assert", r"\b(?:debug_)?assert_eq!\(([^,;]+), ([^;,]+?)\);", r"runtime_assert(\1 == \2);", s)
+    s = sub("R-assert", r"\b(?:debug_)?assert_ne!\(([^,;]+), ([^;,]+?)\);", r"runtime_assert(\1 != \2);", s)
+    s = sub("R-assert", r"(?<![\w!])(?:debug_)?assert!\(([^;,\"]+?)\);", r"runtime_assert(\1);", s)
     s = sub("R-split", r"(\w+)\.split\('(.)'\)\.collect::<Vec<_>>\(\)", r"str_split_char(\1, '\2')", s)
     s = sub("R-split", r"(let (?:mut )?\w+\s*:\s*Vec<&str>\s*=\s*)(\w+)\.split\('(.)'\)\.collect\(\)", r"\1str_split_char(\2, '\3')", s)
     s = sub("R-add", r"\((\w+KeySeparator::default\(\)) \+ (&?\w+)\)", r"(std::ops::Add::add(\1, \2))", s)
